@@ -239,6 +239,21 @@ func init() {
 		return nil
 	})
 	reg("C06", "concurrent", checkC06Concurrent)
+	reg("C06", "repeat", func(c c06Case) error {
+		// the result of a call depends on nothing but its arguments: a
+		// thousand free runs agree with the first
+		var first string
+		for i := 0; i < 1000; i++ {
+			cmds, comments, err := parser.ParseCommands(nil, "c06", c.Src)
+			got := fmt.Sprintf("%s | %s | %v", strings.Join(oracle.Commands(cmds, oracle.Exact), " ;; "), strings.Join(oracle.Comments(comments), " "), err)
+			if i == 0 {
+				first = got
+			} else if got != first {
+				return fmt.Errorf("ParseCommands(%q): repetition %d returns\n  %s\nthe first call returned\n  %s", c.Src, i, got, first)
+			}
+		}
+		return nil
+	})
 	reg("C06", "race", func(c c06Case) error {
 		return fmt.Errorf("data race reported by the race detector while this input ran (%s %q); reproduce with the -race binary", c.Kind, c.Src)
 	})
@@ -392,6 +407,10 @@ func TestC06(t *testing.T) {
 			"echo $(a ; ; -b c d e f) g", "x `a | | b c d` e f", "echo $(a ; ; b c d 'x", "echo \"$(a && && b c)\" d e", "echo $(a $(b ; ; c d) e) f g", "a $((1 + $(b ; ; c d e) )) f",
 			// the parser has given up before the substitution, whose own parse fails as well
 			"a | | $(b | | -c -d) e", "a ; ; `b && && c d` e f", "a | | \"$(b ; ; c d)\" e f", ") $(a | | b c) d", "a | | $(b $(c ; ; d e) f) g", "a | | x$((1 + $(b ; ; c d) ))y z", "{ a; } } $(b | | c d e) f", "a | | $(cat <<E ; ; b c\nE\n) d",
+			// the lexer fails in the token behind a command name that it still has to hand over
+			"echo 'abc", "! echo 'abc", "a \"b", "a ${x", "a `b", "x=1 a 'b", "a b 'c", "a >f 'b", "if a 'b", "a | b 'c", "a; b \"c", "f() 'a",
+			// the parser fails, and the lexer fails in the next token
+			"; 'abc", "if then \"x", "a && && ${x", "echo $(; 'abc)", "a ) `b", "fi 'a",
 			// a here-document is pending when the parser fails on the last token of the line
 			"cat <<E ; ;\nbody\nE\nx\n", "cat <<E & &\nb\nE\n", "cat <<E | &&\nb\nE\n", "cat <<E; (;\nb\nE\n", "a <<E1 | b <<E2 | |\n1\nE1\n2\nE2\n", "cat <<-E )\n\tb\n\tE\n", "cat <<E fi\nb\nE\n", "{ cat <<E; } }\nb\nE\n"} {
 			explore(t, c06Case{Kind: "parse", Src: src}, nil, false)
@@ -584,6 +603,37 @@ func TestC06Race(t *testing.T) {
 		}
 		st.EvalN(int64(reps), int64(reps))
 		st.ClassN("several_heredocs_on_one_line_repeated", int64(reps))
+		// the lexer fails in the token behind a word it still has to hand
+		// over, or right behind the token the parser rejects: what comes back
+		// (commands, comments, error) is the same every time
+		ereps := 12000
+		if thorough() {
+			ereps = 200000
+		}
+		esrcs := []string{"echo 'abc", "! echo 'abc", "a \"b", "a ${x", "; 'abc", "if then \"x", "a && && ${x", "echo $(; 'abc)", "a b `c", "x=1 a 'b", "fi 'a", "a | | 'q"}
+		first := map[string]string{}
+		outcome := func(src string) string {
+			cmds, comments, err := parser.ParseCommands(nil, "c06", src)
+			return fmt.Sprintf("%s | %s | %v", strings.Join(oracle.Commands(cmds, oracle.Exact), " ;; "), strings.Join(oracle.Comments(comments), " "), err)
+		}
+		for i := 0; i < ereps; i++ {
+			src := esrcs[i%len(esrcs)]
+			c := c06Case{Kind: "parse", Src: src}
+			jr.begin("C06", "race", c)
+			var got string
+			if !c06Within(60*time.Second, func() { got = outcome(src) }) {
+				fail(t, "C06", "hang", c, "ParseCommands(%q) did not return within 60s under perturbed free scheduling (repetition %d)", src, i)
+			}
+			jr.end()
+			if w, ok := first[src]; !ok {
+				first[src] = got
+			} else if got != w {
+				fail(t, "C06", "repeat", c, "ParseCommands(%q) under perturbed free scheduling: repetition %d returns\n  %s\nthe first call returned\n  %s", src, i, got, w)
+				break
+			}
+		}
+		st.EvalN(int64(ereps), int64(ereps))
+		st.ClassN("lexer_failure_next_to_a_handover_repeated", int64(ereps))
 	}
 	prop := func(rt *rapid.T) {
 		if rapid.IntRange(0, 9).Draw(rt, "concurrent") == 0 {
